@@ -21,10 +21,14 @@ Record eqcfg := mkcfg {
   c_url_isnil    : bool;  (* Object.Equals guards url with IsNil instead of != nil *)
   c_conv_err     : bool;  (* collection Equals methods treat a failed On<Type>(with) as inequality *)
   c_with_driven  : bool;  (* collection Equals methods delegate as receiver.Equals(with), not with.Equals(receiver) *)
-  c_nil_guards   : bool   (* Object / IntransitiveActivity / Activity / Actor.Equals test IsNil(with) first *)
+  c_nil_guards   : bool;  (* Object / IntransitiveActivity / Activity / Actor.Equals test IsNil(with) first *)
+  c_url_items    : bool   (* Object.Equals compares url with ItemsEqual, as its sibling properties, not by GetLink() *)
 }.
-Definition cfg_fixed : eqcfg := mkcfg true true true true true true true.
-Definition cfg_pinned : eqcfg := mkcfg false false false false false false false.
+Definition cfg_fixed : eqcfg := mkcfg true true true true true true true true.
+Definition cfg_pinned : eqcfg := mkcfg false false false false false false false false.
+(* every repair but the last one: url compared as w.URL.GetLink().Equals(o.URL.GetLink(), false) under the IsNil
+   guard - the code before the fix "Object.Equals compared url by GetLink() only" (C09_url_list_pinned_refuted) *)
+Definition cfg_url_links_pinned : eqcfg := mkcfg true true true true true true true false.
 
 (* The four Equals methods that had no nil test, called DIRECTLY with a nil-like argument (ItemsEqual
    never does that: it tests IsNil first).  Pinned tree: Object.Equals called with.GetID() on the nil;
@@ -121,7 +125,7 @@ Inductive cmp :=
 | CItems (f : fid)    (* the same on an ItemCollection-typed property *)
 | CCollItems          (* Items / OrderedItems of a collection view, through ItemsEqual *)
 | COrdItems           (* if w.OrderedItems != nil { if !o.OrderedItems.Equals(w.OrderedItems) } *)
-| CUrl
+| CUrl                (* if !IsNil(w.URL) { if !ItemsEqual(o.URL, w.URL) } - the guard is IsNil, not != nil *)
 | CTime (f : fid)     (* if !w.F.IsZero() { if !w.F.Equal(o.F) } *)
 | CDur (f : fid)      (* if w.F != 0 { if w.F != o.F } *)
 | CUint (f : fid)     (* if w.F > 0 { if w.F != o.F } *)
@@ -245,7 +249,13 @@ Section Eq.
     | CUrl =>
         let wu := get_item F_URL wfs in
         let ou := get_item F_URL ofs in
-        if c_url_isnil cfg then
+        if c_url_items cfg then
+          (* if !IsNil(w.URL) { if !ItemsEqual(o.URL, w.URL) } *)
+          if is_nil wu then Ok true else rec ou wu
+        else if c_url_isnil cfg then
+          (* if !IsNil(w.URL) { if IsNil(o.URL) {false}; if !w.URL.GetLink().Equals(o.URL.GetLink(), false) {false} }:
+             GetLink() of a list is the empty IRI, of a link its id - lists with different members, id-less links
+             with different hrefs compared equal *)
           if is_nil wu then Ok true
           else if is_nil ou then Ok false
           else Ok (ideq (lnk wu) (lnk ou) false)
@@ -449,6 +459,7 @@ Fixpoint items_equal_c (ideq : bytes -> bytes -> bool -> bool) (cfg : eqcfg) (fu
 
 Definition items_equal ideq := items_equal_c ideq cfg_fixed.
 Definition items_equal_pinned ideq := items_equal_c ideq cfg_pinned.
+Definition items_equal_url_links_pinned ideq := items_equal_c ideq cfg_url_links_pinned.
 (* iri.go IRIs.Contains(r) over the same comparison ([iris_contains] of Model/IriEq.v is the instance with iri_eqb,
    [iris_contains_u] of Model/IriEqU.v the one with iri_equ - both by definition) *)
 Definition iris_contains (ideq : bytes -> bytes -> bool -> bool) (l : list bytes) (x : bytes) : bool :=
@@ -483,6 +494,8 @@ Definition fuel_for (x y : item) : nat := 2 * (esize x + esize y).
 Module EqGI.
 Definition ieq ideq (x y : item) : outcome bool := EqG.items_equal ideq (fuel_for x y) x y.
 Definition ieq_pinned ideq (x y : item) : outcome bool := EqG.items_equal_pinned ideq (fuel_for x y) x y.
+Definition ieq_url_links_pinned ideq (x y : item) : outcome bool :=
+  EqG.items_equal_url_links_pinned ideq (fuel_for x y) x y.
 End EqGI.
 
 (* ---- the instance with the comparison over the plain URL grammar: the names as they always were ---- *)
@@ -506,3 +519,5 @@ Notation items_equal := (EqG.items_equal iri_eqb).
 Notation items_equal_pinned := (EqG.items_equal_pinned iri_eqb).
 Notation ieq := (EqGI.ieq iri_eqb).
 Notation ieq_pinned := (EqGI.ieq_pinned iri_eqb).
+Notation items_equal_url_links_pinned := (EqG.items_equal_url_links_pinned iri_eqb).
+Notation ieq_url_links_pinned := (EqGI.ieq_url_links_pinned iri_eqb).
